@@ -36,6 +36,9 @@ def table_rules(facts, rep):
             t = f.term(b)
             if not t:
                 return None, "?"
+            if t["k"] == "call" and callee_matches(t, r"convert::From::from$|convert::Into::into$") and len(t["args"]) == 1 and \
+                    norm(ex.operand(t["args"][0], (b, None))) == ("arg", 1, "input") and f.locals[t["dest"]["l"]]["ty"] == "u32":
+                return bval, "identity"     # u32::from(input): the lossless widening, same as `input as u32`
             if t["k"] == "goto":
                 b = t["target"]
                 continue
@@ -94,14 +97,21 @@ def table_rules(facts, rep):
             fs2 = dominating_facts(g, exg, slow[0][0])
             good = good and any(x[0] == "truth" and x[2] is False and x[1][0] == "call" and x[1][1].endswith("Iterator::all") for x in fs2)
             m = norm(exg.operand(slow[0][1]["args"][1], (slow[0][0], None)))
-            clos = [c for c in facts.closures_of(g)]
-            uses_to_char = (m[0] == "fn" and m[1].endswith("cp437::to_char")) or any(any(callee_matches(t2, r"^cp437::to_char$") for _, t2 in c.calls()) for c in clos)
+            by_path = {c.path: c for c in facts.fns if c.kind == "Closure"}
+            mc = by_path.get(m[2]) if m[0] == "agg" and m[1] == "closure" else None
+            uses_to_char = (m[0] == "fn" and m[1].endswith("cp437::to_char")) or (mc is not None and any(callee_matches(t2, r"^cp437::to_char$") for _, t2 in mc.calls()))
             good = good and uses_to_char
-            c0 = [c for c in clos if c.path.endswith("{closure#0}")]
-            good = good and bool(c0)
+            # the predicate handed to all(): the closure object itself (wherever it was written -- a helper may have been inlined)
+            pa = norm(exg.operand(alls[0][1]["args"][1], (alls[0][0], None)))
+            pc = by_path.get(pa[2]) if pa[0] == "agg" and pa[1] == "closure" else None
+            good = good and pc is not None
             if good:
-                ra = ret_alts(c0[0])
-                good = len(ra) == 1 and ra[0][0] == "bin" and ra[0][1] == "Lt" and ra[0][3] == ("const", "u8", 128)
+                ra = ret_alts(pc)
+                good = len(ra) == 1 and ra[0][0] == "bin" and ((ra[0][1] == "Lt" and ra[0][3] == ("const", "u8", 128)) or (ra[0][1] == "Le" and ra[0][3] == ("const", "u8", 127)))
+            # ... and it is asked about the very bytes that are converted
+            if good:
+                it = norm(exg.operand(alls[0][1]["args"][0], (alls[0][0], None)))
+                good = any(x == ("arg", 1, "self") for x in walk(it))
         ok &= rep.check(good, rule, "fast-path:%s" % g.impl_self, where(g, g.span), "bytes taken as UTF-8 only when all are < 0x80; otherwise each byte through to_char",
                         "from_cp437 for %s takes its fast path under another condition than 'all bytes < 0x80' (valid multi-byte UTF-8 would bypass CP437)" % g.impl_self)
     rep.floor(rule, 5)
